@@ -153,6 +153,14 @@ Definition mk_request (c : cfg) (u : url) (last : str) : url :=
   let q := if sends_last (c_kind c) && negb (is_empty last) then qset k_last (VS last) q else q in
   mkUrl (u_path u) q.
 
+(* the code before fix 635f618: when n or last had to be set, the query went through
+   url.Values (Query() / Encode()), which drops every pair url.ParseQuery rejects;
+   [parses] says which pairs survive *)
+Definition mk_request_prefix (parses : str * qval -> bool) (c : cfg) (u : url) (last : str) : url :=
+  if (0 <? c_n c)%Z || (sends_last (c_kind c) && negb (is_empty last))
+  then mk_request c (mkUrl (u_path u) (filter parses (u_query u))) last
+  else u.
+
 Definition body_fits (c : cfg) (rs : response) : bool :=
   rs_json_ok rs && (Z.of_N (rs_doc_len rs) <=? eff_limit (c_limit c))%Z.
 
